@@ -42,12 +42,81 @@ def check(ck):
     H.assoc_path_shape(ck, 'R06.8')
     H.deep_merge_shape(ck, 'R06.8')
     H.deep_merge_shape(ck, 'R06.8', 'deep_merge_multi_update')
+    from . import c08 as _c08
+    _c08.r08_13(ck, rule='R06.10')
+    H.recursion_forwards(ck, 'R06.8', [
+        ('inverse_topology', 'library.topology'),
+        ('deep_merge_multi_update', 'library.dict_utils')])
     from . import c09
     ck.shared('R06.9', 'reads walk the tree through the outer links, writes '
               'address nodes by absolute path: the two meet in the same '
               'node only if every node that is attached somewhere gets that '
               'parent as its outer link',
               c09.r09_7)
+    r06_12(ck)
+    from . import c04
+    from ..engine_model import RunFor
+    rf = RunFor(ck)
+    ck.shared('R06.11', 'what a process reads is looked up in the current '
+              'hierarchy at every invocation: the engine keeps no store '
+              'node or view of its own that could outlive a delete-and-'
+              're-create of the subtree (reads would then come from the '
+              'detached nodes while writes go, by path, to the new ones)',
+              lambda c: c04.r04_3(c, rf))
+
+
+def r06_12(ck, rule='R06.12'):
+    ck.rule(rule, "the wiring is read, never edited: inverse_topology "
+            "removes '_path' from (and adds default routes to) a COPY of a "
+            'sub-topology - every pop / item store / del on a value taken '
+            'from the topology acts on a local that was re-bound to a copy '
+            'first; the topology of the process (held by its store node) '
+            'still has its _path at the next invocation')
+    f = ck.fn('inverse_topology', 'library.topology')
+    cfg = cfg_of(f.node)
+    topo = A.params_of(f.node)[2]
+    n = 0
+    muts = []
+    for x in A.walk_no_nested(f.node):
+        if isinstance(x, ast.Call) and A.call_name(x) in (
+                'pop', 'update', 'setdefault', 'clear', 'popitem') and \
+                isinstance(A.call_receiver(x), ast.Name):
+            muts.append((A.call_receiver(x).id, x))
+        elif isinstance(x, (ast.Assign, ast.AugAssign)):
+            for t in A.assigned_targets(x):
+                if isinstance(t, ast.Subscript) and isinstance(
+                        t.value, ast.Name):
+                    muts.append((t.value.id, x))
+        elif isinstance(x, ast.Delete):
+            for t in x.targets:
+                if isinstance(t, ast.Subscript) and isinstance(
+                        t.value, ast.Name):
+                    muts.append((t.value.id, x))
+    for name, m in muts:
+        from_topo = derives(f.node, ast.Name(id=name, ctx=ast.Load()),
+                            lambda y: A.is_name(y, topo), at=m)
+        if not from_topo:
+            continue
+        n += 1
+        st = m
+        while not isinstance(st, ast.stmt):
+            st = st._parent
+        copies = [d for d in local_defs(f.node).get(name, [])
+                  if isinstance(d.value, ast.Call) and (
+                      A.call_name(d.value) in ('copy', 'deepcopy',
+                                               'deep_copy_internal')
+                      or (A.call_name(d.value) == 'dict' and d.value.args))]
+        ok = any(cfg.dominates(cfg.node(d.stmt), cfg.node(st))
+                 for d in copies if cfg.node(d.stmt) is not None)
+        ck.require(ok, rule, f, m,
+                   'the sub-topology edited is a copy',
+                   'inverse_topology edits `%s`, a dictionary of the '
+                   "process's topology, in place (%s): after the first "
+                   "update the wiring has lost its '_path' (or gained "
+                   'default routes) and later updates are written '
+                   'somewhere else than the process reads' % (
+                       name, A.short(m, 40)), m)
+    ck.floor(rule, n, 2, 'edits of sub-topologies in inverse_topology')
 
 
 # ------------------------------------------------------------- case tables
